@@ -25,6 +25,8 @@ R4  index/coordinate    the cell search floor((x - O) / h) and the node coordina
                         gradient fill missing values before delegating, with unchanged arguments; the value
                         array read is the one aligned with the searched coordinate array; user-ordered
                         coordinates appended to _pt are permuted with the permutation returned by the table.
+R6  closed box          dense table: the cell search accepts x = high on an axis and then takes the last node as base; every vertex
+                        base + 1 on that axis (outside the grid) has zero weight in interpolate and in gradient for every axis.
 R5  space typing        the default base point has one entry per PARAMETER axis (it is zipped with the rows of the
                         query points), not one per component of the function value.
 Not decided: floating-point behaviour (rounding in the floor division, the safeguarding thresholds, tolerances of
@@ -67,7 +69,7 @@ META = {
     "technique": "abstract interpretation of straight-line array code to linear forms over symbolic table values (sympy as term normaliser); "
                  "layout/stride agreement; lock-step and index-space typing",
 }
-MIN_INSTANCES = {"R1": 12, "R2": 16, "R3": 10, "R4": 22, "R5": 1}
+MIN_INSTANCES = {"R1": 12, "R2": 16, "R3": 10, "R4": 22, "R5": 1, "R6": 2}
 
 
 # ------------------------------------------------------------------------------------------------------
@@ -103,6 +105,10 @@ class PosLookup:
 class Special:
     def __init__(self, kind: str, owner: str = ""):
         self.kind, self.owner = kind, owner
+
+
+class MaskedArr(np.ndarray):
+    """an index array that went through a data-dependent selection (e.g. eval_ind[eval_ind < number of columns])"""
 
 
 class _Return(Exception):
@@ -156,6 +162,7 @@ class World:
         self.attrs: dict[str, object] = {}
         self.sigma = None          # symbolic strides (dense table) used to split the linear index into the vertex
         self.coordmap = None       # callable: (d x 1 index array) -> (d x 1 coordinate array)
+        self.reads: list = []       # (vertex, masked?) of every value-table read
         self.k = _arr([sp.Symbol(f"k{j}", integer=True) for j in range(d)]).reshape(-1, 1)
         self.x = _arr([sp.Symbol(f"x{j}", real=True) for j in range(d)]).reshape(-1, 1)
 
@@ -343,6 +350,7 @@ class Ev:
                 # column(s) of the value table: one symbolic value per addressed vertex
                 col = idx[-1] if isinstance(idx, tuple) else idx
                 v = w.vertex_of(col)
+                w.reads.append((v, isinstance(col, MaskedArr)))
                 return _arr([FSYM(*v)])
             if base.kind == "pt":
                 if not (isinstance(idx, tuple) and len(idx) == 2 and isinstance(idx[1], PosLookup)):
@@ -374,7 +382,10 @@ class Ev:
                     return [int(t) for t in i]
                 raise self.und(f"array indexed as {u(e)}")
             try:
-                return base[tuple(fix(i) for i in idx)] if isinstance(idx, tuple) else base[fix(idx)]
+                res_ = base[tuple(fix(i) for i in idx)] if isinstance(idx, tuple) else base[fix(idx)]
+                if isinstance(res_, np.ndarray) and (isinstance(idx, Mask) or (isinstance(idx, tuple) and any(isinstance(i, Mask) for i in idx))):
+                    res_ = res_.view(MaskedArr)
+                return res_
             except IndexError:
                 raise self.und(f"index out of range in {u(e)}")
         if isinstance(base, PosLookup) and isinstance(idx, Mask):
@@ -559,10 +570,27 @@ class Ev:
                 return v.ravel()
             raise self.und("ravel of unmodelled value")
         if d == "np.linspace" and len(e.args) == 3:
-            a, b, n = (self.ev(x) for x in e.args)
-            return Linspace(self.need_num(a, e), self.need_num(b, e), self.need_num(n, e))
+            a, b, n = (self.need_num(self.ev(x), e) for x in e.args)
+            for k_ in e.keywords:
+                if k_.arg == "endpoint" and isinstance(k_.value, ast.Constant) and k_.value.value is False:
+                    n = n + 1          # n nodes with spacing (b - a)/n
+                elif k_.arg == "endpoint" and isinstance(k_.value, ast.Constant) and k_.value.value is True:
+                    pass
+                elif k_.arg != "dtype":
+                    raise self.und(f"np.linspace keyword {k_.arg}")
+            return Linspace(a, b, n)
+        if d in ("np.minimum", "np.maximum") and len(e.args) == 2:
+            a, b = self.need_num(self.ev(e.args[0]), e), self.need_num(self.ev(e.args[1]), e)
+            f_ = np.frompyfunc(sp.Min if d == "np.minimum" else sp.Max, 2, 1)
+            return f_(a, b)
+        if d == "np.clip" and len(e.args) == 3:
+            a, lo_, hi_ = (self.need_num(self.ev(x), e) for x in e.args)
+            return np.frompyfunc(sp.Min, 2, 1)(np.frompyfunc(sp.Max, 2, 1)(a, lo_), hi_)
         if d in ("np.logical_not", "np.all", "np.any", "np.logical_and", "np.logical_or", "np.isclose"):
             return Mask()
+        if d in ("np.flatnonzero", "np.where", "np.nonzero") and len(e.args) == 1 and isinstance(self.ev(e.args[0]), Mask):
+            # positions selected by a data-dependent condition: used like the condition itself
+            return Mask() if d == "np.flatnonzero" else (Mask(),)
         if d == "len" and len(e.args) == 1:
             v = self.ev(e.args[0])
             if isinstance(v, (list, tuple)):
@@ -1091,16 +1119,84 @@ def _check_inverse_pair(ctx: Ctx, mod, worlds: dict) -> None:
         if not (isinstance(res, np.ndarray) and res.size == d):
             raise Undecided(f"{IT}:{cname}._find_base_vertex: the cell index could not be evaluated symbolically (got {type(res).__name__})")
         node = w.coordmap(w.k)
+        w.search = [res.ravel()[j] for j in range(d)]
         for j in range(d):
             t = res.ravel()[j]
-            if not isinstance(t, sp.floor):
-                raise Undecided(f"{IT}:{cname}._find_base_vertex: index of axis {j} is not a floor division: {t}")
+            fl = [t] if isinstance(t, sp.floor) else [a_ for a_ in t.args if isinstance(a_, sp.floor)] if isinstance(t, (sp.Min, sp.Max)) else []
+            if len(fl) != 1 or (t is not fl[0] and any(a_.has(w.x.ravel()[j]) for a_ in t.args if a_ is not fl[0])):
+                raise Undecided(f"{IT}:{cname}._find_base_vertex: index of axis {j} is not a (clamped) floor division: {t}")
+            t = fl[0]
             arg = t.args[0].subs({w.x.ravel()[j]: node.ravel()[j]}, simultaneous=True)
             ok = _z(arg - w.k.ravel()[j])
+            if not ok:
+                w.search_inconsistent = True
             ctx.check("R4", ok, mod, f"{owner}._find_base_vertex", fn,
                       f"[{cname}, d={d}] the cell search maps the coordinate of node k on axis {j} ({node.ravel()[j]}) to index {arg if ok else _show(arg)}, not k: "
                       f"search and node coordinates use different origins or mesh sizes", construct=f"{cname}: index(node_k) == k on axis {j} [d={d}]",
                       facts={"search": str(t), "node": str(node.ravel()[j])})
+
+
+def _check_boundary(ctx: Ctx, mod, worlds: dict) -> None:
+    """dense table: the cell search admits x_a = high_a and then returns the LAST node as base; the vertices base + 1 on that axis lie outside
+    the grid (their linear index addresses another node or nothing) and must carry zero weight in every reader"""
+    w = worlds[(BASE, 2)]
+    d = 2
+    if not hasattr(w, "search"):
+        raise Undecided(f"{IT}:{BASE}: cell search not evaluated")
+    if getattr(w, "search_inconsistent", False):
+        ctx.note("R6 skipped: the cell search of the dense table is inconsistent with the node coordinates (reported under R4)")
+        return
+    n, xs, ks = list(w.sym["n"]), list(w.x.ravel()), list(w.k.ravel())
+    loc = _local(w)
+    axes = []
+    for a in range(d):
+        t = w.search[a]
+        hi_node = w.coordmap(_arr([n[j] - 1 for j in range(d)]).reshape(-1, 1)).ravel()[a]       # = high_a
+        kmax = t.subs({xs[a]: hi_node}, simultaneous=True)
+        kmax = sp.simplify(kmax)
+        if _eq0(kmax - (n[a] - 1)):
+            axes.append(a)        # base index n_a - 1 is reachable: vertex n_a is outside the grid
+        elif _eq0(kmax - (n[a] - 2)):
+            ctx.check("R6", True, mod, f"{BASE}._find_base_vertex", None, f"axis {a}: the base index is clamped to the last cell", construct=f"axis {a}: base index clamped to the last cell")
+        else:
+            raise Undecided(f"{IT}:{BASE}._find_base_vertex: base index at x{a} = high{a} is {kmax}")
+    readers, masked = [], {}
+    for nm, b in [("interpolate", None)] + [("gradient", b_) for b_ in range(d)]:
+        w.reads = []
+        readers.append((nm, b, _query(w, nm, {} if b is None else {"axis": sp.Integer(b)})))
+        masked[nm] = all(m for _, m in w.reads) and bool(w.reads)
+    fns = {"interpolate": mod.func(f"{BASE}.interpolate"), "gradient": mod.func(f"{BASE}.gradient")}
+    # the slowest axis of the table: a vertex one past its last node has a linear index beyond the table, so the read itself must be masked
+    total = sp.Integer(1)
+    for nj in n:
+        total *= nj
+    slow = [a for a in axes if _eq0(np.ravel(w.real_strides)[a] * n[a] - total)]
+    for a in slow:
+        for nm in ("interpolate", "gradient"):
+            ctx.check("R6", masked[nm], mod, f"{BASE}.{nm}", fns[nm],
+                      f"at x{a} = high{a} the vertices base + 1 on axis {a} have linear indices >= the number of table columns; {nm} reads the value table with these "
+                      f"indices without excluding them (IndexError even where their weight is zero)", construct=f"{nm}: reads beyond the table are masked",
+                      desc=f"{nm}: value-table reads beyond the table are masked (upper boundary of axis {a})")
+    for a in axes:
+        ta = sp.Symbol(f"t{a}", real=True)
+        for nm, b, E in readers:
+            E2 = sp.expand(E.subs(loc).subs(ta, 0))
+            bad = []
+            for atom in E.atoms(sp.core.function.AppliedUndef):
+                if atom.func == FSYM and _eq0(atom.args[a] - (ks[a] + 1)):
+                    c = E2.coeff(atom)
+                    if not _z(c):
+                        bad.append((atom, c))
+            what = nm if b is None else f"{nm}(axis={b})"
+            ctx.check("R6", not bad, mod, f"{BASE}.{nm}", fns[nm],
+                      f"at x{a} = high{a} (a point of the box: the cell search accepts it and returns the last node as base) {what} gives weight "
+                      f"{_show(bad[0][1]) if bad else 0} to the vertex base + 1 on axis {a}, which is outside the grid: its linear index addresses a node of the next "
+                      f"grid line (silently wrong value) or lies beyond the table (IndexError)", construct=f"{what}: weight of the out-of-grid vertex at the upper boundary of axis {a}",
+                      desc=f"{what}: out-of-grid vertices carry zero weight at x{a} = high{a}")
+
+
+def _eq0(e) -> bool:
+    return sp.expand(sp.sympify(e)) == 0
 
 
 def _order_names(v: ast.expr) -> set[str]:
@@ -1365,6 +1461,7 @@ def run(ctx: Ctx) -> None:
     _check_reproduction(ctx, mod, worlds)
     _check_dense_layout(ctx, mod, worlds)
     _check_inverse_pair(ctx, mod, worlds)
+    _check_boundary(ctx, mod, worlds)
     _check_adaptive(ctx, mod, worlds, roles)
     _check_spaces(ctx, mod)
     ctx.note("observation (outside the claimed clauses): AdaptiveInterpolationTable._find_base_vertex tests `np.any(rows_with_repeats)` on an array of row "
@@ -1391,7 +1488,7 @@ MUTANTS = [
     _m("adaptive-lookup-ignores-increment", "                base_ind + incr, self._table._coords\n", "                base_ind, self._table._coords\n", "R1"),
     _m("dense-vertex-minus-increment", "        vertex_ind = base_ind + incr\n", "        vertex_ind = base_ind - incr\n", "R1"),
     # R2 gradient
-    _m("gradient-sign", "            weight_ind[axis] = 2 * incr[axis] - 1\n", "            weight_ind[axis] = 1 - 2 * incr[axis]\n", "R2", control=True),
+    _m("gradient-sign", "            weight_ind[axis] = 2 * incr[axis] - 1\n", "            weight_ind[axis] = 1 - 2 * incr[axis]\n", "R2"),
     _m("gradient-divided-by-h-of-axis-0", "        return values / self._h[axis]\n", "        return values / self._h[0]\n", "R2"),
     _m("gradient-not-divided", "        return values / self._h[axis]\n", "        return values\n", "R2"),
     _m("gradient-patches-axis-0", "            weight_ind[axis] = 2 * incr[axis] - 1\n", "            weight_ind[0] = 2 * incr[axis] - 1\n", "R2"),
@@ -1415,6 +1512,10 @@ MUTANTS = [
        "self._table.add([unique_ind[:, i] for i in range(unique_ind.shape[1])], new_values)", "R4"),
     _m("requested-vertices-only-base", "            return np.asarray(base_ind + incr)\n", "            return np.asarray(base_ind)\n", "R4"),
     _m("gradient-delegates-to-interpolate", "        return super().gradient(x, axis)\n", "        return super().interpolate(x)\n", "R4"),
+    # R6 closed box
+    _m("interpolate-loses-boundary-mask", "            values[:, inside_grid] += (\n                weight[inside_grid] * self._values[:, eval_ind[inside_grid]]\n            )\n",
+       "            values += weight * self._values[:, eval_ind]\n", "R6"),
     # R5
-    _m("default-base-point-self-dim", "            base_point = np.zeros(dim)\n", "            base_point = np.zeros(self.dim)\n", "R5"),
+    _m("revert-fix-default-base-point-uses-dim", "            base_point = np.zeros(dx.size)\n", "            base_point = np.zeros(dim)\n", "R5", control=True),
+    _m("default-base-point-self-dim", "            base_point = np.zeros(dx.size)\n", "            base_point = np.zeros(self.dim)\n", "R5"),
 ]
